@@ -8,7 +8,7 @@ import json
 import random
 import time
 
-from .. import core, progcheck
+from .. import core, monitors, progcheck
 from ..gen import program as P, randprog
 from . import c12
 
@@ -153,7 +153,41 @@ def refs(o):
     return out
 
 
+# KNOWN FINDING `label-name-read-as-python` (DESIGN.md section 7, F44): a label is "a single token that ends with a colon", and inside an
+# expression a bare name is handed to Python's eval().  (name used, other label defined, what Python makes of the name used)
+PYNAMES = [('A.real', 'A', 'value of A'), ('A.numerator', 'A', 'value of A'), ('A.imag', 'A', 0), ('A.denominator', 'A', 1),
+           ('tab.real', 'tab', 'value of tab'), ('n\u00ba', 'no', 'value of no'), ('\uff21', 'A', 'value of A'), ('\ufb01x', 'fix', 'value of fix'),
+           ('K\u2160', 'KI', 'value of KI')]
+
+
+def run_pyname(asm, acc, case):
+    used, other, reading = PYNAMES[case['pyname'] % len(PYNAMES)]
+    d = ['dw %s', 'dd %s', 'pack <I, %s', 'dw %s + 0', 'pack >I, 0 + %s'][case['pyname'] // len(PYNAMES) % 5]
+    lines = ['nop', other + ':', 'nop', 'nop', used + ':', 'nop', d % used, 'j ' + used]
+    py = reading if isinstance(reading, int) else None
+    for compress in (False, True):
+        o = monitors.observe(asm, '\n'.join(lines) + '\n', compress, tap=False)
+        acc['n'] += 1
+        acc['ntkeys'].add(core.ckey('pyname', used, d, compress))
+        if not o.ok:
+            acc['ctr']['pyname_refused'] += 1         # a refusal encodes nothing: C08 has nothing to say
+            continue
+        at = len(o.out) - (4 if compress is False else 2) - (8 if d.startswith('dd') else 4)
+        sz = 8 if d.startswith('dd') else 4
+        got = int.from_bytes(o.out[at:at + sz], 'big' if '>' in d else 'little')
+        lab = (o.labels or {}).get(used)
+        if got == lab:
+            acc['ctr']['pyname_resolved_to_the_label'] += 1
+            continue
+        core.add_viol(acc, '`%s` with labels %s = %r and %s = %r encodes %d: the bare name is not read as the label of that name%s' % (
+            d % used, used, lab, other, (o.labels or {}).get(other), got,
+            ' (Python reads it as: %s)' % reading if got == (o.labels or {}).get(other) or got == py else ''),
+            dict(case, compress=compress), {'lines': lines}, key='label-name-read-as-python' if (got == py or (isinstance(reading, str) and got == (o.labels or {}).get(other))) else None)
+
+
 def run_case(asm, acc, case):
+    if 'pyname' in case:
+        return run_pyname(asm, acc, case)
     rng = random.Random('c08-%d-%d' % (case['seed'], case['idx']))
     if case['idx'] % 5 == 1:
         # a label-dependent immediate that sits on an RVC operand-set edge while the compression pass looks at it
@@ -259,6 +293,8 @@ def classify_item(it, info):
 def run_shard(sh, deadline):
     asm = core.load_asm()
     acc = core.new_acc()
+    for k in range(sh.get('pynames', 0)):
+        run_case(asm, acc, {'pyname': k})
     for idx in range(sh['lo'], sh['hi']):
         run_case(asm, acc, {'seed': sh['seed'], 'idx': idx})
         if time.time() > deadline:
@@ -270,7 +306,9 @@ def run_shard(sh, deadline):
 def plan(tier, seed):
     n = 5000 if tier == 'quick' else 200000
     st = 100 if tier == 'quick' else 1000
-    return {'shards': [{'seed': seed, 'lo': lo, 'hi': min(n, lo + st)} for lo in range(0, n, st)], 'budget_s': 300 if tier == 'quick' else 3000}
+    shards = [{'seed': seed, 'lo': lo, 'hi': min(n, lo + st)} for lo in range(0, n, st)]
+    shards[0]['pynames'] = len(PYNAMES) * 5
+    return {'shards': shards, 'budget_s': 300 if tier == 'quick' else 3000}
 
 
 def gates(acc, tier):
@@ -288,5 +326,5 @@ def gates(acc, tier):
 def replay(case):
     asm = core.load_asm()
     acc = core.new_acc()
-    run_case(asm, acc, {'seed': case['seed'], 'idx': case['idx']})
+    run_case(asm, acc, {'pyname': case['pyname']} if 'pyname' in case else {'seed': case['seed'], 'idx': case['idx']})
     return acc
